@@ -48,7 +48,7 @@ ASSUMPTIONS = [
 ]
 REQUIRED_CELLS = {'quick': ['read:path=h', 'read:path=p', 'read:path=v', 'reread', 'op:w_flow', 'op:w_scale', 'op:w_T',
                             'op:w_P', 'op:w_phase', 'op:phases', 'op:w_H', 'op:mix_from', 'op:copy_like', 'op:copy_flow',
-                            'op:link', 'op:unlink', 'op:reset_thermo', 'op:empty', 'op:proxy', 'op:restore', 'op:mixH', 'op:revisit',
+                            'op:link', 'op:unlink', 'op:reset_thermo', 'op:empty', 'op:proxy', 'op:restore', 'op:mixH', 'op:revisit', 'op:swap',
                             'start:S', 'start:M'],
                   'thorough': []}
 
@@ -1156,6 +1156,33 @@ def op_restore(ch, W, ctx):
     mutated(W, W.trace[-1])
 
 
+def swap_rows(W, ctx, h, obj, p, q):
+    """Exchange the contents of two phases of a MultiStream through imol[phase] writes."""
+    names = h.names()
+    ap = np.array([h.vec(p).get(n, 0.) for n in names], float)
+    aq = np.array([h.vec(q).get(n, 0.) for n in names], float)
+    def f():
+        obj.imol[p] = aq
+        obj.imol[q] = ap
+    ctx.call('op.swap_rows', f, region='kind=M')
+    rp, rq = dict(h.vec(p)), dict(h.vec(q))
+    h.vec(p).clear(); h.vec(p).update(rq)
+    h.vec(q).clear(); h.vec(q).update(rp)
+
+
+def op_swap(ch, W, ctx):
+    """Move material between the phases of a MultiStream: only the phase distribution changes."""
+    cands = [p for p in write_paths(W, single=False)]
+    if not cands:
+        ctx.cell('swap->phases'); return op_phases(ch, W, ctx)
+    path = ch.choice('sw.path', cands)
+    h, _ = target(W, path)
+    pq = ch.subset('sw.pq', list(h.phases), min_size=2, max_size=2)
+    W.trace.append(f'swap {pkey(path)} {pq[0]}<->{pq[1]}')
+    swap_rows(W, ctx, h, get_obj(W, ctx, path), pq[0], pq[1])
+    mutated(W, W.trace[-1])
+
+
 def op_revisit(ch, W, ctx):
     """read - mutate - read (any path) - undo the mutation exactly - read again through the first path."""
     paths = read_paths(W)
@@ -1170,8 +1197,11 @@ def op_revisit(ch, W, ctx):
     check_read(W, ctx, p1, prop)
     muts = ['T', 'P', 'scale2']
     if h.kind == 'S': muts.append('phase')
+    else: muts += ['swap', 'swap']
     mut = ch.choice('rv.mut', muts)
     obj = h.real
+    if mut == 'swap':
+        pq = ch.subset('rv.pq', list(h.phases), min_size=2, max_size=2)
     if mut == 'T':
         old = h.tc.T; new = ch.choice('rv.T', [t for t in T_PAL if t != old])
         ctx.call('op.T', setattr, obj, 'T', new, region='path=h'); h.tc.T = new
@@ -1181,6 +1211,8 @@ def op_revisit(ch, W, ctx):
     elif mut == 'phase':
         old = h.ph.val; new = ch.choice('rv.phase', [x for x in PHASES if x != old])
         ctx.call('op.phase', setattr, obj, 'phase', new, region='path=h,kind=S'); h.ph.val = new
+    elif mut == 'swap':
+        swap_rows(W, ctx, h, obj, pq[0], pq[1])
     else:
         ctx.call('op.scale', obj.scale, 2., region=f'path=h,kind={h.kind}')
         for r in h.flow.rows.values():
@@ -1199,6 +1231,8 @@ def op_revisit(ch, W, ctx):
         ctx.call('op.P', setattr, obj, 'P', old, region='path=h'); h.tc.P = old
     elif mut == 'phase':
         ctx.call('op.phase', setattr, obj, 'phase', old, region='path=h,kind=S'); h.ph.val = old
+    elif mut == 'swap':
+        swap_rows(W, ctx, h, obj, pq[0], pq[1])
     else:
         ctx.call('op.scale', obj.scale, 0.5, region=f'path=h,kind={h.kind}')
         for r in h.flow.rows.values():
@@ -1215,7 +1249,7 @@ def op_revisit(ch, W, ctx):
 OPS = {
     'read': (op_read, 10), 'revisit': (op_revisit, 3), 'mixH': (op_mixH, 1),
     'w_flow': (op_w_flow, 3), 'w_scale': (op_w_scale, 3), 'w_T': (op_w_T, 3), 'w_P': (op_w_P, 2), 'w_phase': (op_w_phase, 2),
-    'w_H': (op_w_H, 1), 'empty': (op_empty, 1), 'phases': (op_phases, 2), 'mix_from': (op_mix_from, 2),
+    'w_H': (op_w_H, 1), 'swap': (op_swap, 2), 'empty': (op_empty, 1), 'phases': (op_phases, 2), 'mix_from': (op_mix_from, 2),
     'copy_like': (op_copy_like, 1), 'copy_flow': (op_copy_flow, 1), 'link': (op_link, 2), 'unlink': (op_unlink, 1),
     'reset_thermo': (op_reset_thermo, 2), 'copy': (op_copy_replace, 1), 'proxy': (op_proxy, 2), 'partner': (op_partner, 1),
     'restore': (op_restore, 3),
@@ -1256,5 +1290,5 @@ def prop_history(ch, ctx):
 
 
 PROPS = {
-    'history': (prop_history, 2400, 80000),
+    'history': (prop_history, 4800, 100000),
 }
